@@ -11,7 +11,8 @@ S = SP + "Spinner."
 
 def register(R):
     # ---- abstract reactor / delayed calls / signal table ---------------------------------------------------------------
-    R.shape("DelayedCall", cancel=dict(signature="", event=True, returns="none"))
+    R.shape("DelayedCall", cancel=dict(signature="", event=True, returns="none"),
+            active=dict(signature="", returns="bool", pure=True, noalloc=True))
     # every call on the reactor is one ghost event; run() is where callbacks happen: they may set the spinner's result fields
     R.shape("AReactor",
             callLater=dict(signature="delay, f, a=None, b=None", event=True, returns="DelayedCall", ensures=["not allocated(ret)"]),
@@ -30,7 +31,12 @@ def register(R):
     R.fields_of("AReactor", stop="any", threadpool="any")
     R.library("twisted.internet.interfaces.IReactorThreads.providedBy", signature="obj", returns="bool", pure=True, noalloc=True)
     R.fields_of("Spinner", _reactor="AReactor", _timeout_call="?DelayedCall", _success="any", _failure="any", _saved_signals="list[(any,any)]",
-                _junk="list", _debug="any", _spinning="any")
+                _junk="list", _debug="any", _spinning="any", _OBLIGATORY_REACTOR_ITERATIONS="int")
+    # iters(h, k): h followed by k iterate(0) events
+    R.function("iters", ["hist", "int"], "hist")
+    R.axiom("iters_0", {"h": "hist"}, "iters(h, 0) == h", patterns=["iters(h, 0)"])
+    R.axiom("iters_step", {"h": "hist", "k": "int"}, "implies(k >= 0, iters(h, k + 1) == snoc(iters(h, k), call('iterate', [0], {})))",
+            patterns=["iters(h, k + 1)"])
     R.shape("Flr2", raiseException=dict(signature="", returns="none", pure=True, ensures=["False"], exsures=["exc is self.value"]))
     R.fields_of("Flr2", value="exc")
 
@@ -57,14 +63,19 @@ def register(R):
                ensures=["ret is old(self._junk)", "not allocated(self._junk)", "len(listof(self._junk)) == 0"])
     # ---- _clean: every leftover delayed call cancelled once, every selectable removed, all of them remembered as junk ------
     R.contract(S + "_clean", props=["C15"], frame_hist=True, returns="list",
-               requires=["Spinner._OBLIGATORY_REACTOR_ITERATIONS == 0"],
+               requires=["self._OBLIGATORY_REACTOR_ITERATIONS >= 0"],
                modifies=["$hist", "list(self._junk)"],
+               context={"N": "self._OBLIGATORY_REACTOR_ITERATIONS", "RH0": "old(hist(self._reactor))"},
                ensures=["not allocated(ret)",
                         "listof(self._junk) == old(listof(self._junk)) + listof(ret)",
+                        # the reactor is shaken N times FIRST; only then is it asked what is still scheduled (whatever the shaking
+                        # left behind is junk too), then told to drop every selectable
+                        "hist(self._reactor) == snoc(snoc(iters(RH0, N), call('getDelayedCalls', [], {})), call('removeAll', [], {})) or "
+                        "hist(self._reactor) == snoc(snoc(snoc(iters(RH0, N), call('getDelayedCalls', [], {})), call('removeAll', [], {})), call('_stopThreadPool', [], {}))",
                         # the reactor was asked for its delayed calls and told to drop every selectable (last reactor calls made)
                         "is_snoc(hist(self._reactor))",
                         "ev_name(hlast(hist(self._reactor))) == 'removeAll' or ev_name(hlast(hist(self._reactor))) == '_stopThreadPool'"],
-               loops={0: dict(invariant=["True"]),
+               loops={0: dict(invariant=["hist(self._reactor) == iters(RH0, _i)"]),
                       1: dict(invariant=["not allocated(junk)", "listof(junk) == _seq[:_i]" if False else "len(listof(junk)) == _i",
                                          "all(at(listof(junk), k) is at(_seq, k) for k in range(_i))",
                                          "all(is_snoc(hsel(HIST(), at(_seq, k))) and ev_name(hlast(hsel(HIST(), at(_seq, k)))) == 'cancel' for k in range(_i))",
@@ -108,7 +119,7 @@ def register_run(R):
     STALE = "len(old(listof(self._junk))) > 0"
     R.contract(S + "run", props=["C15"], params={"timeout": "any", "function": "any", "args": "tuple", "kwargs": "dict"},
                requires=["not truthy(self._debug)",                                      # DebugTwisted (a fixtures.Fixture subclass) is not modelled
-                         "Spinner._OBLIGATORY_REACTOR_ITERATIONS == 0",
+                         "self._OBLIGATORY_REACTOR_ITERATIONS >= 0",
                          "implies(self._failure is not %s, is_shape_(self._failure, 'Flr2'))" % UNSET],
                frame_hist=True, returns="any",
                modifies=["$hist", "self._timeout_call", "self._saved_signals", "f:sig_handler", "self._reactor.stop", "f:_success", "f:_failure",
